@@ -88,7 +88,7 @@ class LB:
     pass
 
 
-def gen_case(r, script, fail_scripts, logdir, ai=False):
+def gen_case(r, script, fail_scripts, logdir, ai=False, twin=None):
     nfiles = r.randint(1, 5)
     nblocks = r.choice([1, 2, 3, 5, 8, 12, 20, 40])
     files, blocks = {}, []
@@ -130,7 +130,11 @@ def gen_case(r, script, fail_scripts, logdir, ai=False):
             else:
                 b.kind = None
                 spath = script
+                if twin and r.random() < 0.35:
+                    spath = twin           # the always-approving twin: `verdict` stays what it was, the expectation becomes nil
             attrs = [("name", b.name), ("check-lua", spath), ("spin", str(spin)), ("verdict", b.verdict)]
+            if spath == twin:
+                b.verdict = "nil"
             if logdir:
                 attrs.append(("log", os.path.join(logdir, "calls.log")))
             if b.pattern is not None:
@@ -213,6 +217,16 @@ def run_job(job, ctx):
     if fl not in ctx.bins:
         return [Case(INCONCLUSIVE, key=h(job), summary="build %s unavailable" % fl, evals=0)]
     script = lua_script("args.lua")
+    # a second script with the same *file name* in another directory: it always approves (returns nil), whatever `verdict` says
+    twin_dir = os.path.join(os.path.dirname(script), "twin")
+    twin = os.path.join(twin_dir, os.path.basename(script))
+    if not os.path.exists(twin):
+        os.makedirs(twin_dir, exist_ok=True)
+        src = open(script).read().replace('if ctx.attrs.verdict == "nil" then return nil end', "if true then return nil end")
+        assert src != open(script).read()
+        with open(twin + ".tmp%d" % os.getpid(), "w") as f:
+            f.write(src)
+        os.replace(twin + ".tmp%d" % os.getpid(), twin)
     fail_scripts = {k: lua_script("fail/%s.lua" % k) for k in FAILS}
     out = []
     for j in range(job["n"]):
@@ -220,7 +234,7 @@ def run_job(job, ctx):
         safe = r.random() < 0.4
         logdir = run.fresh_dir("lualog") if safe else None
         with_ai = r.random() < 0.25
-        files, blocks = gen_case(r, script, fail_scripts, logdir, ai=with_ai)
+        files, blocks = gen_case(r, script, fail_scripts, logdir, ai=with_ai, twin=twin if r.random() < 0.5 else None)
         workers = r.choice([None, 1, 2, 4, 16])
         ncpu = os.cpu_count() or 1
         aff = r.choice([None, None, {r.randrange(ncpu)}, set(r.sample(range(ncpu), min(4, ncpu)))])
